@@ -5,20 +5,25 @@ from __future__ import annotations
 import json
 import os
 import subprocess
+import threading
 import time
 import sys
 
 from ..common import BUILD_DIR, VERIF, Run
 
 
+_SHIM_LOCK = threading.Lock()
+
+
 def shim_path():
     so = os.path.join(BUILD_DIR, "shim.so")
     src = os.path.join(VERIF, "native", "shim.c")
-    if not os.path.exists(so) or os.path.getmtime(so) < os.path.getmtime(src):
-        os.makedirs(BUILD_DIR, exist_ok=True)
-        tmp = f"{so}.{os.getpid()}.tmp"  # never let a loader see a half-written file
-        subprocess.run(["gcc", "-O1", "-shared", "-fPIC", "-o", tmp, src, "-ldl"], check=True)
-        os.replace(tmp, so)
+    with _SHIM_LOCK:  # children are started from a thread pool
+        if not os.path.exists(so) or os.path.getmtime(so) < os.path.getmtime(src):
+            os.makedirs(BUILD_DIR, exist_ok=True)
+            tmp = f"{so}.{os.getpid()}.{threading.get_ident()}.tmp"  # never let a loader see a half-written file
+            subprocess.run(["gcc", "-O1", "-shared", "-fPIC", "-o", tmp, src, "-ldl"], check=True)
+            os.replace(tmp, so)
     return so
 
 
